@@ -289,7 +289,7 @@ class GFA:
                     raise ValueError(
                         f"The tag {tag} for node {node_id} did not match the specifications, check sam specification on tags"
                     )
-                tag = tag.split(":")
+                tag = tag.split(":", 2)
                 # I am adding the tags as key:value, key is tag_name:type and value is the value at the end
                 # e.g. SN:i:10 will be {"SN": ('i', '10')}
                 self[node_id].tags[tag[0]] = (tag[1], tag[2])  # (type, value)
